@@ -36,10 +36,15 @@ CallableT = TypeVar("CallableT", bound=Callable)
 class LocatedRequestCallableRecursionResolver(RecursionResolver[LocatedRequest, CallableT], Generic[CallableT]):
     def __init__(self) -> None:
         self._loc_to_stub: dict[AnyLoc, FuncWrapper] = {}
+        self._tracked_locs: list[AnyLoc] = []
 
     def track_request(self, request: LocatedRequest) -> Optional[Any]:
         last_loc = request.last_loc
-        if sum(loc == last_loc for loc in request.loc_stack) == 1:
+        # An equal location inside the stack means recursion only if its request is processed by this resolver.
+        # The stack can start with locations processed by another retort (when this retort is used as a provider),
+        # nobody would set the function of a stub created for such a location
+        if sum(loc == last_loc for loc in request.loc_stack) == 1 or last_loc not in self._tracked_locs:
+            self._tracked_locs.append(last_loc)
             return None
 
         if last_loc in self._loc_to_stub:
@@ -50,6 +55,8 @@ class LocatedRequestCallableRecursionResolver(RecursionResolver[LocatedRequest, 
 
     def track_response(self, request: LocatedRequest, response: CallableT) -> None:
         last_loc = request.last_loc
+        if last_loc in self._tracked_locs:
+            self._tracked_locs.remove(last_loc)
         if last_loc in self._loc_to_stub:
             self._loc_to_stub.pop(last_loc).set_func(response)
 
